@@ -81,6 +81,10 @@ def strategy(draw, tier="quick"):
         k = draw(st.integers(1, min(left, 6)))
         comp.append(k)
         left -= k
+    if fmt != "pdb" and draw(st.integers(0, 11)) == 0:
+        # long output: write calls that are larger than, or add up across, the sizes an internal buffer / chunk is likely to
+        # have (256, 512, 1000 frames)
+        comp = draw(st.sampled_from([[513], [300, 300], [511, 2, 100], [256, 256, 1], [1, 512], [1000, 30], [100] * 6]))
     if fmt == "pdb":
         comp = [1] * n
     cell, time = _norm(fmt, draw(st.booleans()), draw(st.booleans()))
